@@ -10,7 +10,9 @@ ok = ok and C.run_translator(bs)
 print("translator:", "ok" if not bs.translator_error else bs.translator_error)
 C.build_engine(bs)
 print("engine:", "ok" if not bs.engine_error else bs.engine_error[-300:])
+C.build_engine_trace(bs)
+print("engine (hooks on, state trace):", "ok" if not bs.trace_engine_error else bs.trace_engine_error[-300:])
 mods = ["wvm"] + ["Walleye.Props.C%02d" % i for i in range(1, 19)]
 ok2 = C.lake_build(bs, mods)
 print("lake build:", "ok" if ok2 else bs.lean_errors)
-sys.exit(0 if ok and ok2 and not bs.engine_error else 1)
+sys.exit(0 if ok and ok2 and not bs.engine_error and not bs.trace_engine_error else 1)
